@@ -62,7 +62,7 @@ def decide(pc, prop, timeout_s=300):
     s.add(z3.Not(prop))
     t = time.time()
     c = s.check()
-    if c == z3.unsat and os.environ.get('VERIF_CROSSCHECK') == '1' and CROSS['asked'] < int(os.environ.get('VERIF_CROSSCHECK_MAX', '400')):
+    if c == z3.unsat and os.environ.get('VERIF_CROSSCHECK') == '1' and CROSS['asked'] < int(os.environ.get('VERIF_CROSSCHECK_MAX', '40')):
         import subprocess, tempfile
         CROSS['asked'] += 1
         try:
